@@ -76,7 +76,7 @@ impl Block {
         ensures
             //# C09:computed_root_is_the_merkle_tree_of_the_txids_in_block_order
             r.0@ == merkle_spec(Seq::new(self.txs@.len(), |i: int| self.txs@[i].hash.0@)),
-//@before `utils::merkle_root(hashes)`
+//@before `utils::merkle_root`
         assert(views(hashes@) =~= Seq::new(self.txs@.len(), |i: int| self.txs@[i].hash.0@));
 //@end
 }
